@@ -183,6 +183,17 @@ where
     }
 }
 
+#[cfg(crux_verif)]
+impl<A> Core<A>
+where
+    A: App,
+{
+    /// Verification hook (read-only): the number of tasks the core's executor currently holds.
+    pub fn verif_executor_tasks(&self) -> usize {
+        self.executor.verif_live_tasks()
+    }
+}
+
 impl<A> Default for Core<A>
 where
     A: App,
